@@ -125,7 +125,7 @@ func TestVerif_C16(t *testing.T) {
 	}
 
 	// ---- writes under boundary-value workloads
-	nsess := vEnv.pick(2400, 250000)
+	nsess := vEnv.pick(2400, 100000)
 	var a *vAgent
 	var curCfg int
 	defer func() {
